@@ -84,6 +84,7 @@ class Expect:
             self.n = p["n"]
             if p["kind"] not in ("zeros", "pattern"):
                 self.data = plain_bytes(p)
+                self.n = len(self.data)
             elif p["kind"] == "pattern":
                 self.unit = pattern_unit(p)
 
